@@ -17,7 +17,9 @@
 (*          reader); rtips1 includes the wanted values after a fetch       *)
 (*   runk   number of objects in the receiver that are not objects of U    *)
 (*   idbad  number of objects whose bytes differ from the sender's         *)
-(*   wants  what was asked for;  forged = 1: not an advertised value       *)
+(*   wants  what was asked for;  forged = 1: not an advertised value;      *)
+(*          mwants: the want list the sender's MissingObjectFinder was     *)
+(*          given (push: the new values the remote does not list already)  *)
 (*   inctag 1: include-tag was requested                                   *)
 (*   ok     1: the operation reported success                              *)
 (*   cap    1: the pack on the wire was captured: sent (ids in the pack),  *)
@@ -131,15 +133,17 @@ Judge(t) ==
                  THEN (IF t.snd = "g" /\ t.rcv = "g" THEN "SpecVsGit:" \o rcvClause ELSE rcvClause)
             ELSE "ok"
         \* shape: does the run look like the model?
-        sr      == IF t.srv # <<>>
+        sr      == IF t.srv # <<>> /\ ok
                    THEN SrvReplay(U, sstore, wants, t.mode, t.srv, 1, [common |-> <<>>, found |-> FALSE, haves |-> <<>>], <<>>)
                    ELSE <<0, <<>>>>
-        haves   == IF t.srv # <<>> THEN SeqSet(sr[2]) ELSE SeqSet(t.haves)
-        hk      == t.hk = 1 \/ t.srv # <<>>
+        haves   == IF t.srv # <<>> /\ ok THEN SeqSet(sr[2]) ELSE SeqSet(t.haves)
+        hk      == t.hk = 1 \/ (t.srv # <<>> /\ ok)
         mofOK   == \/ ~cap \/ ~hk \/ t.snd # "d" \/ ~ok
-                   \/ \E tg \in (IF t.inctag = 1 /\ t.op # "push" THEN TaggedChoices(U, tagrefs) ELSE {<<>>}) :
-                        sent = MofSent(U, sstore, haves, wants, tg)
-        cr      == IF t.cli # <<>>
+                   \* get_tagged() returns {} when the backend repository has no .repo attribute
+                   \* (a plain Repo behind FileSystemBackend): include-tag then adds nothing
+                   \/ \E tg \in (IF t.inctag = 1 THEN TaggedChoices(U, tagrefs) \cup {<<>>} ELSE {<<>>}) :
+                        sent = MofSent(U, sstore, haves, SeqSet(t.mwants), tg)
+        cr      == IF t.cli # <<>> /\ ok
                    THEN CliReplay(U, t.miv, t.cli, 1,
                                   [heads |-> SeqSet(t.rheads), wp |-> WalkerInit(Len(U.par)), inVain |-> 0,
                                    gotAck |-> FALSE, done |-> FALSE])
@@ -148,14 +152,14 @@ Judge(t) ==
             IF t.forged = 1 /\ ok THEN "ForgedWantAccepted"
             ELSE IF sr[1] # 0 THEN "ServerDialogue@" \o ToString(sr[1])
             ELSE IF cr # 0 THEN "ClientDialogue@" \o ToString(cr)
-            ELSE IF ~(haves \subseteq r0 \cap sstore) THEN "HavesSound"
+            ELSE IF hk /\ ~(haves \subseteq (IF t.op = "push" THEN r0 ELSE r0 \cap sstore)) THEN "HavesSound"
             ELSE IF ~mofOK THEN "MofConform"
             ELSE IF cap /\ ok /\ ~(SeqSet(t.thin) \subseteq r0 \cup sent) THEN "ThinBases"
             ELSE "ok"
     IN  PrintT(<<"V", t.tid, clause, shape,
                  IF clause \in {"ReceiverComplete.wants", "ReceiverComplete.closed"} THEN need \ r1
                  ELSE IF sndClause # "ok" THEN sent \ (wcl \cup auto)
-                 ELSE IF shape = "MofConform" THEN <<sent, MofSent(U, sstore, haves, wants, <<>>)>>
+                 ELSE IF shape = "MofConform" THEN <<sent, MofSent(U, sstore, haves, SeqSet(t.mwants), <<>>)>>
                  ELSE {}>>)
 
 TraceInit == tid \in 1..Len(Traces) /\ stage = 0
